@@ -34,6 +34,12 @@ static void print_viol(const char *tag, uint64_t index, uint64_t rseed, const Ru
 // ------------------------------------------------------------------ running a plan in a forked child (shrinking)
 struct Outcome { std::string cls, site; bool violated = false; };
 
+// Histories that the same worker process executed *before* the failing one.  A library with state of static or thread storage duration (a
+// per-thread cache, a free list, a memo table) carries it from one history into the next, so a violation may need its predecessors in order to
+// show; a replay is then a sequence of plans.  Empty on a tree without such state (every violation reproduces from its own plan alone).
+static std::vector<Plan> g_prefix;
+static void run_prefix() { for (const Plan &q : g_prefix) { simrt::run_deadline(60); (void)run_plan(q, nullptr); } simrt::run_deadline(0); }
+
 static Outcome run_forked(const Plan &p) {
     Outcome out;
     int fd[2];
@@ -44,7 +50,8 @@ static Outcome run_forked(const Plan &p) {
         close(fd[0]);
         dup2(fd[1], 1);
         close(fd[1]);
-        alarm(20);
+        alarm(g_prefix.empty() ? 20 : 120);
+        run_prefix();
         RunResult rr = run_plan(p, nullptr);
         if (rr.viol.set) std::printf("V class=%s site=%s\n", rr.viol.cls.c_str(), one_line(rr.viol.site).c_str());
         else std::printf("OK\n");
@@ -80,9 +87,9 @@ static Outcome run_forked(const Plan &p) {
     return out;
 }
 
-static Plan shrink(const Plan &orig, const Outcome &want, unsigned &tries) {
+static Plan shrink(const Plan &orig, const std::function<bool(const Plan &)> &holds, unsigned &tries) {
     Plan best = orig;
-    auto still = [&](const Plan &cand) { ++tries; Outcome o = run_forked(cand); return o.violated && o.cls == want.cls; };
+    auto still = [&](const Plan &cand) { ++tries; return holds(cand); };
     // ddmin over the operation vector
     size_t chunk = std::max<size_t>(1, best.ops.size() / 2);
     while (chunk >= 1 && tries < 1500) {
@@ -136,6 +143,17 @@ static bool write_replay(const std::string &path, const Plan &p, const Outcome &
     f << "  \"class\": \"" << json_escape(o.cls) << "\",\n  \"site\": \"" << json_escape(o.site) << "\",\n";
     f << "  \"message\": \"" << json_escape(rr.viol.msg) << "\",\n";
     f << "  \"original_ops\": " << orig_ops << ",\n  \"minimised_ops\": " << p.ops.size() << ",\n  \"shrink_executions\": " << tries << ",\n";
+    if (!g_prefix.empty()) {
+        f << "  \"note\": \"the library under test keeps state between histories: the plans under earlier_histories are executed first, in this order, in the same process\",\n";
+        f << "  \"earlier_histories\": [";
+        for (size_t k = 0; k < g_prefix.size(); k++) {
+            f << (k ? ",\n    {\"ops\": [\n" : "\n    {\"ops\": [\n");
+            std::istringstream ps(plan_to_text(g_prefix[k])); std::string pl; bool pf = true;
+            while (std::getline(ps, pl)) { f << (pf ? "      \"" : ",\n      \"") << json_escape(pl) << "\""; pf = false; }
+            f << "\n    ]}";
+        }
+        f << "\n  ],\n";
+    }
     f << "  \"plan\": [\n";
     std::istringstream is(plan_to_text(p));
     std::string line; bool first = true;
@@ -151,6 +169,27 @@ static bool read_replay(const std::string &path, Plan &p, std::string &cls, std:
     std::string all = ss.str();
     size_t c0 = all.find("\"class\": \"");
     if (c0 != std::string::npos) { c0 += 10; cls = all.substr(c0, all.find('"', c0) - c0); }
+    auto lines_of = [](const std::string &body) {
+        std::string text; size_t pos = 0;
+        while ((pos = body.find('"', pos)) != std::string::npos) {
+            size_t q = pos + 1; while (q < body.size() && body[q] != '"') q += body[q] == '\\' ? 2 : 1;
+            if (q >= body.size()) break;
+            text += body.substr(pos + 1, q - pos - 1) + "\n"; pos = q + 1;
+        }
+        return text;
+    };
+    g_prefix.clear();
+    size_t h0 = all.find("\"earlier_histories\": [");
+    if (h0 != std::string::npos) {
+        size_t hend = all.find("\n  ],", h0);
+        size_t o = h0;
+        while ((o = all.find("{\"ops\": [", o)) != std::string::npos && o < hend) {
+            size_t e2 = all.find("]}", o);
+            Plan q; std::string er2;
+            if (!plan_from_text(lines_of(all.substr(o + 9, e2 - o - 9)), q, er2)) { err = "earlier history: " + er2; return false; }
+            g_prefix.push_back(q); o = e2;
+        }
+    }
     size_t p0 = all.find("\"plan\": [");
     if (p0 == std::string::npos) { err = "no plan in replay file"; return false; }
     size_t e = all.find(']', p0);
@@ -293,12 +332,48 @@ int main(int argc, char **argv) {
         else p = gen_plan(prop, run_seed(base, prop, i));
         // gate 1: the same plan twice must give the same outcome
         Outcome a = run_forked(p), b = run_forked(p);
+        unsigned tries = 0;
+        const char *cs = arg(argc, argv, "--chain-start", nullptr);
+        if ((!a.violated || !b.violated || a.cls != b.cls) && cs && !planfile) {
+            // Not from its own plan alone.  The worker that saw it had executed other histories before, in the same process: a library that keeps
+            // state between calls (static or thread storage duration) carries it along.  Re-execute that worker's sequence; if the violation is
+            // back - twice - the replay is the sequence, minimised to the predecessors that matter.
+            uint64_t c0 = std::strtoull(cs, nullptr, 10), stride = std::strtoull(arg(argc, argv, "--chain-stride", "1"), nullptr, 10);
+            if (stride == 0) stride = 1;
+            for (uint64_t j = c0; j < i && g_prefix.size() < 6000; j += stride) g_prefix.push_back(gen_plan(prop, run_seed(base, prop, j)));
+            a = run_forked(p); b = run_forked(p);
+            if (a.violated && b.violated && a.cls == b.cls) {
+                struct timespec t0; clock_gettime(CLOCK_MONOTONIC, &t0);
+                auto elapsed = [&] { struct timespec t1; clock_gettime(CLOCK_MONOTONIC, &t1); return (t1.tv_sec - t0.tv_sec) + (t1.tv_nsec - t0.tv_nsec) * 1e-9; };
+                auto holds_with = [&](const std::vector<Plan> &pre) { std::vector<Plan> keep; keep.swap(g_prefix); g_prefix = pre; ++tries; Outcome o = run_forked(p); g_prefix.swap(keep); return o.violated && o.cls == a.cls; };
+                // ddmin over the predecessors
+                std::vector<Plan> best = g_prefix;
+                size_t chunk = std::max<size_t>(1, best.size() / 2);
+                while (chunk >= 1 && elapsed() < 90) {
+                    bool removed = false;
+                    for (size_t st = 0; st < best.size() && elapsed() < 90;) {
+                        std::vector<Plan> cand = best; size_t en = std::min(best.size(), st + chunk);
+                        cand.erase(cand.begin() + st, cand.begin() + en);
+                        if (holds_with(cand)) { best = cand; removed = true; } else st += chunk;
+                    }
+                    if (chunk == 1 && !removed) break;
+                    if (!removed) chunk /= 2; else chunk = std::min(chunk, std::max<size_t>(1, best.size() / 2));
+                    if (chunk == 0) break;
+                }
+                g_prefix = best;
+                // ... and over the operations of each predecessor that is left (at most eight of them)
+                for (size_t k = 0; k < g_prefix.size() && k < 8 && elapsed() < 150; k++) {
+                    Plan orig = g_prefix[k];
+                    g_prefix[k] = shrink(orig, [&](const Plan &cand) { Plan keep = g_prefix[k]; g_prefix[k] = cand; Outcome o = run_forked(p); g_prefix[k] = keep; return o.violated && o.cls == a.cls; }, tries);
+                    Outcome chk = run_forked(p); if (!chk.violated || chk.cls != a.cls) g_prefix[k] = orig;
+                }
+            }
+        }
         if (!a.violated || !b.violated || a.cls != b.cls) {
             std::printf("NOREPRO first=%s second=%s\n", a.violated ? a.cls.c_str() : "ok", b.violated ? b.cls.c_str() : "ok");
             return 2;
         }
-        unsigned tries = 0;
-        Plan m = shrink(p, a, tries);
+        Plan m = shrink(p, [&](const Plan &cand) { Outcome o = run_forked(cand); return o.violated && o.cls == a.cls; }, tries);
         Outcome fin = run_forked(m);
         if (!fin.violated || fin.cls != a.cls) { m = p; fin = a; }
         // message for the replay file (only when the violation is not fatal)
@@ -307,12 +382,14 @@ int main(int argc, char **argv) {
         if (fin.cls != "abort" && fin.cls != "terminate" && fin.cls != "signal" && fin.cls != "sanitizer" && fin.cls != "no_progress" && fin.cls != "died") {
             int fd[2]; if (pipe(fd) == 0) {
                 pid_t pid = fork();
-                if (pid == 0) { close(fd[0]); RunResult r2 = run_plan(m, nullptr); std::string s = r2.viol.msg; ssize_t w = write(fd[1], s.data(), s.size()); (void)w; _exit(0); }
+                if (pid == 0) { close(fd[0]); run_prefix(); RunResult r2 = run_plan(m, nullptr); std::string s = r2.viol.msg; ssize_t w = write(fd[1], s.data(), s.size()); (void)w; _exit(0); }
                 close(fd[1]); char tmp[1024]; ssize_t n; while ((n = read(fd[0], tmp, sizeof tmp)) > 0) rr.viol.msg.append(tmp, (size_t)n); close(fd[0]); int st; waitpid(pid, &st, 0);
             }
         }
         if (!write_replay(out, m, fin, rr, base, i, tries, p.ops.size())) { std::printf("cannot write %s\n", out); return 2; }
-        std::printf("SHRUNK class=%s site=%s ops=%zu->%zu executions=%u file=%s\n", fin.cls.c_str(), fin.site.c_str(), p.ops.size(), m.ops.size(), tries, out);
+        if (g_prefix.empty()) std::printf("SHRUNK class=%s site=%s ops=%zu->%zu executions=%u file=%s\n", fin.cls.c_str(), fin.site.c_str(), p.ops.size(), m.ops.size(), tries, out);
+        else { size_t po = 0; for (const Plan &q : g_prefix) po += q.ops.size();
+               std::printf("SHRUNK class=%s site=%s ops=%zu->%zu earlier_histories=%zu (%zu ops; the library keeps state between histories) executions=%u file=%s\n", fin.cls.c_str(), fin.site.c_str(), p.ops.size(), m.ops.size(), g_prefix.size(), po, tries, out); }
         return 0;
     }
     if (cmd == "replay") {
@@ -320,6 +397,8 @@ int main(int argc, char **argv) {
         Plan p; std::string cls, err;
         if (!read_replay(argv[2], p, cls, err)) { std::fprintf(stderr, "%s\n", err.c_str()); return 2; }
         if (flag(argc, argv, "--show")) std::fputs(plan_to_text(p).c_str(), stdout);
+        simrt::fatal_context("prop=C%02d replay (earlier history)", p.k.prop);
+        run_prefix();
         simrt::fatal_context("prop=C%02d replay", p.k.prop);
         RunResult rr = run_plan(p, nullptr);
         if (rr.viol.set) { print_viol("V", 0, p.k.seed, rr); return 1; }
